@@ -21,6 +21,7 @@ const (
 	lbIS
 	lbSY
 	lbOP
+	lbOPSP
 	lbQU
 	lbQUSP
 	lbNS
@@ -134,8 +135,12 @@ func lbTransitions(state, prop int) (newState, lineBreak, rule int) {
 	case lbAny | prOP<<32:
 		return lbOP, LineCanBreak, 310
 	case lbOP | prSP<<32:
-		return lbOP, LineDontBreak, 70
+		return lbOPSP, LineDontBreak, 70
+	case lbOPSP | prSP<<32:
+		return lbOPSP, LineDontBreak, 70
 	case lbOP | prAny<<32:
+		return lbAny, LineDontBreak, 140
+	case lbOPSP | prAny<<32:
 		return lbAny, LineDontBreak, 140
 
 	// LB15.
@@ -509,13 +514,16 @@ func transitionLineBreakState(state int, r rune, b []byte, str string) (newState
 			bit = lbZWJBit
 		}
 		mustBreakState := state < 0 || state == lbBK || state == lbCR || state == lbLF || state == lbNL
-		if !mustBreakState && state != lbSP && state != lbZW && state != lbQUSP && state != lbCLCPSP && state != lbB2SP {
+		if !mustBreakState && state != lbSP && state != lbZW && state != lbOPSP && state != lbQUSP && state != lbCLCPSP && state != lbB2SP {
 			// LB9.
 			return state | bit, LineDontBreak
 		} else {
 			// LB10.
 			if mustBreakState {
 				return lbAL | bit, LineMustBreak
+			}
+			if state == lbOPSP {
+				return lbAL | bit, LineDontBreak // LB14.
 			}
 			return lbAL | bit, LineCanBreak
 		}
